@@ -378,7 +378,17 @@ func emitSplit(tr *Tracer, site, proto string, req, ref int, text string, parts 
 			cat = append(cat, p...)
 		}
 	}
-	// for the codings whose tables are x/text's: the x/text decoding of the concatenated payloads
+	// for the codings whose tables are x/text's: the unit stream as the single-coding codec produces it
+	// (needed to judge a refusal, when there are no parts to look at) ...
+	rawenc := []int{}
+	if (proto == "cmpp" && req == 15) || (proto == "smpp" && req == 3) {
+		if cd := codecFor(map[bool]string{true: "gb", false: "latin1"}[proto == "cmpp"], []byte(text)); cd != nil {
+			if b, e := cd.Encode(); e == nil {
+				rawenc = B(b)
+			}
+		}
+	}
+	// ... and the x/text decoding of the concatenated payloads
 	dec := []int{}
 	switch {
 	case proto == "cmpp" && actual == 15:
@@ -399,5 +409,5 @@ func emitSplit(tr *Tracer, site, proto string, req, ref int, text string, parts 
 		entry = "batch"
 	}
 	tr.emit(Ev{"ev": "Split", "entry": entry, "proto": proto, "req": req, "ref": ref, "text": scalars(text), "parts": pl,
-		"actual": actual, "err": isErr, "can": can, "dec": dec, "site": site})
+		"actual": actual, "err": isErr, "can": can, "dec": dec, "rawenc": rawenc, "site": site})
 }
